@@ -109,6 +109,35 @@ def FVal.absLe : FVal → Nat → Prop
   | .fin _ m e, B => m * pow2 e.toNat ≤ B * pow2 (-e).toNat
   | _, _ => True
 
+/-! ### correctly rounded value of a rational and of a decimal number -/
+
+/-- `num / den ≥ 2^k` -/
+def geScaled (num den : Nat) (k : Int) : Bool :=
+  if k ≥ 0 then decide (num ≥ den * pow2 k.toNat) else decide (num * pow2 (-k).toNat ≥ den)
+
+/-- correctly rounded value of `(-1)^neg * num / den` (`den > 0`) in format `f`: nearest, ties to even; beyond the
+    largest finite value: infinity -/
+def roundRat (f : Fmt) (neg : Bool) (num den : Nat) : FVal :=
+  if num = 0 ∨ den = 0 then .fin neg 0 0
+  else
+    let l : Int := (Nat.log2 num : Nat) - (Nat.log2 den : Nat)
+    let lead : Int := if geScaled num den l then l else l - 1           -- 2^lead ≤ num/den < 2^(lead+1)
+    let q : Int := max (lead - (f.p - 1 : Nat)) f.qmin                  -- exponent of the last kept bit
+    -- num / den in units of 2^q
+    let n := if q ≥ 0 then num else num * pow2 (-q).toNat
+    let d := if q ≥ 0 then den * pow2 q.toNat else den
+    let keep := n / d
+    let rem := n % d
+    let up := 2 * rem > d ∨ (2 * rem = d ∧ keep % 2 = 1)
+    let m' := if up then keep + 1 else keep
+    if m' = 0 then .fin neg 0 0
+    else if ((Nat.log2 m' : Nat) : Int) + q > f.emax then .inf neg
+    else .fin neg m' q
+
+/-- correctly rounded value of `(-1)^neg * m * 10^e` -/
+def roundDec (f : Fmt) (neg : Bool) (m : Nat) (e : Int) : FVal :=
+  if e ≥ 0 then roundRat f neg (m * 10 ^ e.toNat) 1 else roundRat f neg m (10 ^ (-e).toNat)
+
 /-! ### encodings (little-endian integer value of the object's value bytes) -/
 
 /-- encode a datum that is representable in `f` (as produced by `round f`) -/
